@@ -247,6 +247,18 @@ func names(ix []int) []string {
 	return out
 }
 
+func dedup(l []string) []string {
+	seen := map[string]bool{}
+	var out []string
+	for _, e := range l {
+		if !seen[e] {
+			seen[e] = true
+			out = append(out, e)
+		}
+	}
+	return out
+}
+
 func hasDup(l []string) bool {
 	seen := map[string]bool{}
 	for _, e := range l {
@@ -305,12 +317,26 @@ func Run(c *Case, props map[string]bool) (res Result) {
 		lab[fmt.Sprintf("name-set-%d", c.NameSet)]++
 	}
 	R, D := time.Duration(c.R), time.Duration(c.D)
-	init := names(c.Init)
-	if len(init) == 0 || hasDup(init) {
-		init = []string{"a"}
+	rawR, rawD := R, D
+	if R < 0 || D < 0 {
+		lab["negative-duration-configured"]++
 	}
-	callerList := append(make([]string, 0, 512), init...)
-	initArg := append([]string{}, init...)
+	if R < 0 {
+		R = 0 // a negative duration means "none"
+	}
+	if D < 0 {
+		D = 0
+	}
+	rawInit := names(c.Init)
+	if len(rawInit) == 0 {
+		rawInit = []string{"a"}
+	}
+	init := dedup(rawInit) // an endpoint listed more than once counts where it is listed first
+	if len(init) != len(rawInit) {
+		lab["duplicate-in-list"]++
+	}
+	callerList := append(make([]string, 0, 512), rawInit...)
+	initArg := append([]string{}, rawInit...)
 	if c.InPlace {
 		initArg = callerList
 	}
@@ -320,12 +346,12 @@ func Run(c *Case, props map[string]bool) (res Result) {
 			l = []string{}
 		}
 		lab["construction-with-empty-list"]++
-		if bad, err := multiendpoint.NewMultiEndpoint(&multiendpoint.MultiEndpointOptions{Endpoints: l, RecoveryTimeout: R, SwitchingDelay: D}); err == nil || bad != nil {
+		if bad, err := multiendpoint.NewMultiEndpoint(&multiendpoint.MultiEndpointOptions{Endpoints: l, RecoveryTimeout: rawR, SwitchingDelay: rawD}); err == nil || bad != nil {
 			fail("C13", "B.emptyList", "NewMultiEndpoint with an empty endpoint list returned (%v, %v), want an error and no object", bad, err)
 			endIfOtherFailed()
 		}
 	}
-	me, err := multiendpoint.NewMultiEndpoint(&multiendpoint.MultiEndpointOptions{Endpoints: initArg, RecoveryTimeout: R, SwitchingDelay: D})
+	me, err := multiendpoint.NewMultiEndpoint(&multiendpoint.MultiEndpointOptions{Endpoints: initArg, RecoveryTimeout: rawR, SwitchingDelay: rawD})
 	if err != nil {
 		fail("C13", "create", "NewMultiEndpoint(%v): %v", init, err)
 		endIfOtherFailed()
@@ -524,7 +550,6 @@ func Run(c *Case, props map[string]bool) (res Result) {
 				}
 				fuzzy = false
 				if hasDup(nl) {
-					fuzzy = true
 					lab["duplicate-in-list"]++
 					seen := map[string]bool{}
 					var dd []string
